@@ -459,7 +459,7 @@ example : (cpusOf demoProcs).Nodup := by decide
 example : policy 3 demoProcs = [0, 1, 4] := by decide
 example : policy 9 demoProcs = [] := by decide
 /-- LSR pod on 0,6; LSE pod on 7; budget 3 CPUs: BE gets 2,3,4 (never 7). -/
-example : adjustCPUSet exactOps 3000 4 demoProcs [⟨true, qLSR, [0, 6]⟩, ⟨true, qLSE, [7]⟩] [] [] = .write [2, 3, 4] := by
+example : adjustCPUSet exactOps 3000 4 demoProcs [{ valid := true, qos := qLSR, cpus := [0, 6] }, { valid := true, qos := qLSE, cpus := [7], life := 2 }] [] [] = .write [2, 3, 4] := by
   decide
 /-- every CPU protected: untouched, no panic. -/
 example : adjustCPUSet exactOps 3000 2 [⟨0, 0, 0, 0⟩, ⟨1, 0, 0, 0⟩] [] [0, 1] [] = .untouched := by decide
